@@ -89,7 +89,7 @@ theorem keyUnassigned_of_alloc_eq {s s' : State} {k : Key} (ha : s'.alloc = s.al
 
 theorem core_unbind (F : Plugin.Facts) (s : State) (pod : Pod) (h : Core s) : Core (unbind F s pod).1 := by
   unfold unbind
-  dsimp only
+  try dsimp only
   split
   · exact h
   · have u := core_unassignAll (ipsOfKey s (keyOf pod)) s h
@@ -156,12 +156,55 @@ theorem core_unbindAny (s : State) (k : Key) (policy : Nat) (h : Core s) (hs : S
   · exact ⟨core_unbindDp s k policy h hun, single_of_cleared hs (unbindDp_chgC s k policy)⟩
   · exact ⟨core_unbindOther s k policy h hun, single_of_cleared hs (unbindOther_chgC s k policy)⟩
 
+theorem resyncAct_core (s : State) (ip : IP) (k : Key) (r : Rec) (hget : Tbl.get s.alloc ip = some r) (hkey : r.key = k)
+    (hpod : k.pod ≠ "") (c1 : Core s) (s1 : Single s) : Core (resyncAct s ip k r) ∧ Single (resyncAct s ip k r) := by
+  have unb : ∀ (t : State), Core t → Single t → KeyUnassigned t k →
+      Core (if k.isDp then (unbindDp t k r.policy).1 else (unbindOther t k r.policy).1) ∧
+      Single (if k.isDp then (unbindDp t k r.policy).1 else (unbindOther t k r.policy).1) :=
+    fun t ct st hun => core_unbindAny t k r.policy ct st hun
+  unfold resyncAct
+  split
+  · rename_i hprov
+    have c2 := core_provUnassign s r.node ip c1
+    have s2 := single_of_alloc_eq s1 (provUnassign_alloc s r.node ip)
+    split
+    · exact ⟨c2, s2⟩
+    · rename_i hok
+      have hok' : (provUnassign s r.node ip).2 = true := by simpa using hok
+      have hget2 : Tbl.get (provUnassign s r.node ip).1.alloc ip = some r := by rw [provUnassign_alloc]; exact hget
+      have hun2 := keyUnassigned_of_single _ s2 ip r hget2 (by rw [hkey]; exact hpod) (prov_provUnassign_ok _ _ _ c1.on hok')
+      rw [hkey] at hun2
+      have c3 := core_reserveSelf _ k c2 hun2
+      have s3 := single_of_cleared s2 (reserveSelf_chgC _ k)
+      have hun3 : KeyUnassigned (reserve (provUnassign s r.node ip).1 k k {}).1 k := by
+        intro j rj hj hk
+        have hp3 : prov (reserve (provUnassign s r.node ip).1 k k {}).1 = prov (provUnassign s r.node ip).1 := by
+          unfold prov; rw [reserve_plog]
+        rw [hp3]
+        rcases (reserveSelf_chgC (provUnassign s r.node ip).1 k).recs j with e | ⟨⟨ro, hro, hko⟩, _⟩
+        · rw [e] at hj; exact hun2 j rj hj hk
+        · exact hun2 j ro hro hko
+      have := unb _ c3 s3 hun3
+      split
+      · rename_i hdp; simp only [hdp, ↓reduceIte] at this; exact this
+      · rename_i hdp; simp only [hdp] at this; exact this
+  · rename_i hprov
+    have hnode : r.node = "" := by
+      simp only [Bool.and_eq_true, decide_eq_true_eq, not_and, c1.on, true_implies] at hprov
+      simpa using hprov
+    have hu1 : Tbl.get (prov s) ip = none := (c1.j ip).unassigned_of_node r hget hnode
+    have hun1 := keyUnassigned_of_single _ s1 ip r hget (by rw [hkey]; exact hpod) hu1
+    rw [hkey] at hun1
+    have := unb _ c1 s1 hun1
+    split
+    · rename_i hdp; simp only [hdp, ↓reduceIte] at this; exact this
+    · rename_i hdp; simp only [hdp] at this; exact this
+
 theorem resyncOne_core (s : State) (ip : IP) (r0 : Rec) (hpod : r0.key.pod ≠ "") (h : Core s)
     (hs : Single s) : Core (resyncOne Facts.good s ip r0) ∧ Single (resyncOne Facts.good s ip r0) := by
   generalize hF : Facts.good = F
   have hre : F.resyncRechecks = true := by rw [← hF]; rfl
   unfold resyncOne
-  dsimp only
   split
   · exact ⟨h, hs⟩
   · rename_i r hcur
@@ -174,48 +217,16 @@ theorem resyncOne_core (s : State) (ip : IP) (r0 : Rec) (hpod : r0.key.pod ≠ "
       have s1 := single_of_alloc_eq hs pq.1.alloc
       split
       · exact ⟨c1, s1⟩
-      · -- the record is the one re-read under the pod lock
-        have hget : Tbl.get s.alloc ip = some r := by
-          rw [hre] at hcur; simpa using hcur
-        · have hget1 : Tbl.get (podRunning F s r0.key.pod r0.key.ns r.uid).1.alloc ip = some r := by
-            rw [pq.1.alloc]; exact hget
-          split
-          · rename_i hprov
-            have c2 := core_provUnassign _ r.node ip c1
-            have s2 := single_of_alloc_eq s1 (provUnassign_alloc _ r.node ip)
-            split
-            · exact ⟨c2, s2⟩
-            · rename_i hok
-              have hok' : (provUnassign (podRunning F s r0.key.pod r0.key.ns r.uid).1 r.node ip).2 = true := by simpa using hok
-              have hget2 : Tbl.get (provUnassign (podRunning F s r0.key.pod r0.key.ns r.uid).1 r.node ip).1.alloc ip = some r := by
-                rw [provUnassign_alloc]; exact hget1
-              have hun2 := keyUnassigned_of_single _ s2 ip r hget2 (by rw [hkey']; exact hpod)
-                (prov_provUnassign_ok _ _ _ c1.on hok')
-              rw [hkey'] at hun2
-              have c3 := core_reserveSelf _ r0.key c2 hun2
-              have s3 := single_of_cleared s2 (reserveSelf_chgC _ r0.key)
-              -- after the reserve the key's records are still unassigned (the log did not change)
-              have hun3 : KeyUnassigned (reserve (provUnassign (podRunning F s r0.key.pod r0.key.ns r.uid).1 r.node ip).1
-                  r0.key r0.key {}).1 r0.key := by
-                intro j rj hj hk
-                have hp3 : prov (reserve (provUnassign (podRunning F s r0.key.pod r0.key.ns r.uid).1 r.node ip).1
-                    r0.key r0.key {}).1 = prov (provUnassign (podRunning F s r0.key.pod r0.key.ns r.uid).1 r.node ip).1 := by
-                  unfold prov; rw [reserve_plog]
-                rw [hp3]
-                rcases (reserveSelf_chgC (provUnassign (podRunning F s r0.key.pod r0.key.ns r.uid).1 r.node ip).1 r0.key).recs j with e | ⟨⟨ro, hro, hko⟩, _⟩
-                · rw [e] at hj; exact hun2 j rj hj hk
-                · exact hun2 j ro hro hko
-              exact core_unbindAny _ r0.key r.policy c3 s3 hun3
-          · rename_i hprov
-            -- no node recorded: by `J` the address is unassigned
-            have hnode : r.node = "" := by
-              simp only [Bool.and_eq_true, decide_eq_true_eq, not_and, c1.on, true_implies] at hprov
-              simpa using hprov
-            have hu1 : Tbl.get (prov (podRunning F s r0.key.pod r0.key.ns r.uid).1) ip = none :=
-              (c1.j ip).unassigned_of_node r hget1 hnode
-            have hun1 := keyUnassigned_of_single _ s1 ip r hget1 (by rw [hkey']; exact hpod) hu1
-            rw [hkey'] at hun1
-            exact core_unbindAny _ r0.key r.policy c1 s1 hun1
+      · have kq := keyOwned_quiet F (podRunning F s r0.key.pod r0.key.ns r.uid).1 r0.key r.uid
+        have c2 := c1.of_quiet kq.1 kq.2
+        have s2 := single_of_alloc_eq s1 kq.1.alloc
+        split
+        · exact ⟨c2, s2⟩
+        · have hget : Tbl.get s.alloc ip = some r := by
+            rw [hre] at hcur; simpa using hcur
+          have hget2 : Tbl.get (keyOwnedByRunningPod F (podRunning F s r0.key.pod r0.key.ns r.uid).1 r0.key r.uid).1.alloc ip
+              = some r := by rw [kq.1.alloc, pq.1.alloc]; exact hget
+          exact resyncAct_core _ ip r0.key r hget2 hkey' hpod c2 s2
 
 theorem resyncLoop_core (snap : Tbl IP Rec) (hsnap : ∀ ip r0, Tbl.get snap ip = some r0 → r0.key.pod ≠ "") :
     ∀ (l : List IP) (s : State), Core s → Single s →
@@ -259,6 +270,72 @@ theorem keyUnassigned_of (s : State) (k : Key) (h : Core s) (hs : Single s) (ip 
     have := hs j ip rj r hj hr (by rw [hk, hkr]) (by rw [hk]; exact hp)
     rw [this]; exact hip r hr hkr
 
+theorem releaseAct_core (s : State) (ip : IP) (k : Key) (uid : Nat) (node : String) (c0 : Core s) (s0 : Single s)
+    (hrec0 : ∀ r, Tbl.get s.alloc ip = some r → r.key = k ∧ r.node = node)
+    (hhas0 : k.pod ≠ "" → ∃ r, Tbl.get s.alloc ip = some r ∧ r.key = k) :
+    Core (releaseAct Facts.good s ip k uid node).1 := by
+  unfold releaseAct
+  have kq := keyOwned_quiet Facts.good s k uid
+  have c1 := c0.of_quiet kq.1 kq.2
+  have s1 := single_of_alloc_eq s0 kq.1.alloc
+  split
+  · exact c1
+  · generalize (keyOwnedByRunningPod Facts.good s k uid).1 = t at kq c1 s1 ⊢
+    have hrec : ∀ r, Tbl.get t.alloc ip = some r → r.key = k ∧ r.node = node := by
+      intro r hr; rw [kq.1.alloc] at hr; exact hrec0 r hr
+    have hhas : k.pod ≠ "" → ∃ r, Tbl.get t.alloc ip = some r ∧ r.key = k := by
+      intro hp; rw [kq.1.alloc]; exact hhas0 hp
+    have rp : (Core (releasePre t node ip k).1 ∧ Single (releasePre t node ip k).1 ∧ KeyUnassigned (releasePre t node ip k).1 k) ∨
+        ((releasePre t node ip k).2 ≠ .ok ∧ Core (releasePre t node ip k).1) := by
+      unfold releasePre
+      split
+      · rename_i hprov
+        have c2 := core_provUnassign t node ip c1
+        have s2 := single_of_alloc_eq s1 (provUnassign_alloc t node ip)
+        split
+        · right
+          exact ⟨by simp, c2⟩
+        · rename_i hok
+          have hok' : (provUnassign t node ip).2 = true := by simpa using hok
+          have hun2 : KeyUnassigned (provUnassign t node ip).1 k := by
+            apply keyUnassigned_of _ k c2 s2 ip
+            · intro r _ _; exact prov_provUnassign_ok t node ip c1.on hok'
+            · intro hp; rw [provUnassign_alloc]; exact hhas hp
+          have c3 := core_reserveSelf _ k c2 hun2
+          have s3 := single_of_cleared s2 (reserveSelf_chgC _ k)
+          have hun3 : KeyUnassigned (reserve (provUnassign t node ip).1 k k {}).1 k := by
+            intro j rj hj hk
+            have hp3 : prov (reserve (provUnassign t node ip).1 k k {}).1 = prov (provUnassign t node ip).1 := by
+              unfold prov; rw [reserve_plog]
+            rw [hp3]
+            rcases (reserveSelf_chgC (provUnassign t node ip).1 k).recs j with e | ⟨⟨ro, hro, hko⟩, _⟩
+            · rw [e] at hj; exact hun2 j rj hj hk
+            · exact hun2 j ro hro hko
+          by_cases hres : (reserve (provUnassign t node ip).1 k k {}).2 = true
+          · left; exact ⟨c3, s3, hun3⟩
+          · right
+            refine ⟨?_, c3⟩
+            simp [okOr, hres]
+      · rename_i hprov
+        left
+        refine ⟨c1, s1, ?_⟩
+        apply keyUnassigned_of _ k c1 s1 ip
+        · intro r hr hk
+          have hn := (hrec r hr).2
+          have : node = "" := by
+            simp only [Bool.and_eq_true, decide_eq_true_eq, not_and, c1.on, true_implies] at hprov
+            simpa using hprov
+          exact (c1.j ip).unassigned_of_node r hr (by rw [hn, this])
+        · exact hhas
+    generalize releasePre t node ip k = x at rp ⊢
+    rcases rp with ⟨c, sg, hun⟩ | ⟨hne, c⟩
+    · split
+      · exact core_release _ k ip c hun
+      · exact c
+    · split
+      · rename_i hok; exact absurd hok hne
+      · exact c
+
 theorem apiRelease_core (s : State) (ip : IP) (k : Key) (h : Core s) (hs : Single s) :
     Core (apiRelease Facts.good s ip k).1 := by
   unfold apiRelease
@@ -273,18 +350,14 @@ theorem apiRelease_core (s : State) (ip : IP) (k : Key) (h : Core s) (hs : Singl
     have s1 := single_of_alloc_eq hs pq.1.alloc
     split
     · exact c1
-    · -- the record of the address, if any, has key k
-      have hrec : ∀ r, Tbl.get (podRunning Facts.good s k.pod k.ns (((Tbl.get s.alloc ip).map (·.uid)).getD 0)).1.alloc ip
-          = some r → r.key = k ∧ r.node = ((Tbl.get s.alloc ip).map (·.node)).getD "" := by
-        intro r hr
+    · apply releaseAct_core _ ip k _ _ c1 s1
+      · intro r hr
         rw [pq.1.alloc] at hr
         rw [hr] at hkey
         simp only [Option.map_some, Option.getD_some] at hkey
         rw [hr]
         exact ⟨hkey, rfl⟩
-      have hhas : k.pod ≠ "" → ∃ r, Tbl.get (podRunning Facts.good s k.pod k.ns
-          (((Tbl.get s.alloc ip).map (·.uid)).getD 0)).1.alloc ip = some r ∧ r.key = k := by
-        intro hp
+      · intro hp
         rw [pq.1.alloc]
         cases hg : Tbl.get s.alloc ip with
         | none =>
@@ -295,66 +368,6 @@ theorem apiRelease_core (s : State) (ip : IP) (k : Key) (h : Core s) (hs : Singl
         | some r =>
           rw [hg] at hkey
           exact ⟨r, rfl, by simpa using hkey⟩
-      -- releasePre
-      have rp : Core (releasePre (podRunning Facts.good s k.pod k.ns (((Tbl.get s.alloc ip).map (·.uid)).getD 0)).1
-            (((Tbl.get s.alloc ip).map (·.node)).getD "") ip k).1 ∧
-          Single (releasePre (podRunning Facts.good s k.pod k.ns (((Tbl.get s.alloc ip).map (·.uid)).getD 0)).1
-            (((Tbl.get s.alloc ip).map (·.node)).getD "") ip k).1 ∧
-          KeyUnassigned (releasePre (podRunning Facts.good s k.pod k.ns (((Tbl.get s.alloc ip).map (·.uid)).getD 0)).1
-            (((Tbl.get s.alloc ip).map (·.node)).getD "") ip k).1 k ∨
-          (releasePre (podRunning Facts.good s k.pod k.ns (((Tbl.get s.alloc ip).map (·.uid)).getD 0)).1
-            (((Tbl.get s.alloc ip).map (·.node)).getD "") ip k).2 ≠ .ok ∧
-          Core (releasePre (podRunning Facts.good s k.pod k.ns (((Tbl.get s.alloc ip).map (·.uid)).getD 0)).1
-            (((Tbl.get s.alloc ip).map (·.node)).getD "") ip k).1 := by
-        generalize hs1 : (podRunning Facts.good s k.pod k.ns (((Tbl.get s.alloc ip).map (·.uid)).getD 0)).1 = t at *
-        generalize hnd : ((Tbl.get s.alloc ip).map (·.node)).getD "" = node at *
-        unfold releasePre
-        split
-        · rename_i hprov
-          have c2 := core_provUnassign t node ip c1
-          have s2 := single_of_alloc_eq s1 (provUnassign_alloc t node ip)
-          split
-          · right
-            exact ⟨by simp, c2⟩
-          · rename_i hok
-            have hok' : (provUnassign t node ip).2 = true := by simpa using hok
-            have hun2 : KeyUnassigned (provUnassign t node ip).1 k := by
-              apply keyUnassigned_of _ k c2 s2 ip
-              · intro r _ _; exact prov_provUnassign_ok t node ip c1.on hok'
-              · intro hp; rw [provUnassign_alloc]; exact hhas hp
-            have c3 := core_reserveSelf _ k c2 hun2
-            have s3 := single_of_cleared s2 (reserveSelf_chgC _ k)
-            have hun3 : KeyUnassigned (reserve (provUnassign t node ip).1 k k {}).1 k := by
-              intro j rj hj hk
-              have hp3 : prov (reserve (provUnassign t node ip).1 k k {}).1 = prov (provUnassign t node ip).1 := by
-                unfold prov; rw [reserve_plog]
-              rw [hp3]
-              rcases (reserveSelf_chgC (provUnassign t node ip).1 k).recs j with e | ⟨⟨ro, hro, hko⟩, _⟩
-              · rw [e] at hj; exact hun2 j rj hj hk
-              · exact hun2 j ro hro hko
-            by_cases hres : (reserve (provUnassign t node ip).1 k k {}).2 = true
-            · left; exact ⟨c3, s3, hun3⟩
-            · right
-              refine ⟨?_, c3⟩
-              simp [okOr, hres]
-        · rename_i hprov
-          left
-          refine ⟨c1, s1, ?_⟩
-          apply keyUnassigned_of _ k c1 s1 ip
-          · intro r hr hk
-            have hn := (hrec r hr).2
-            have : node = "" := by
-              simp only [Bool.and_eq_true, decide_eq_true_eq, not_and, c1.on, true_implies] at hprov
-              simpa using hprov
-            exact (c1.j ip).unassigned_of_node r hr (by rw [hn, this])
-          · exact hhas
-      rcases rp with ⟨c, sg, hun⟩ | ⟨hne, c⟩
-      · split
-        · exact core_release _ k ip c hun
-        · exact c
-      · split
-        · rename_i hok; exact absurd hok hne
-        · exact c
 
 /-! ### Filter -/
 
